@@ -146,9 +146,17 @@ def run(chk):
         for n in ((60, 320, 700) if th else (60, 330)):
             plan.append((pv, n, rng.random() < 0.5, rng.choice([None, 256]), rng.choice(['whole', 'frame', 'random'])))
     runs, reqs = [], []
-    for pv, n, disc, thr, chunking in plan:
+    # deterministic probes: wherever the chat id is shared with another class, a fixed history with a chat frame
+    from minecraft.networking.packets import clientbound as cb
+    fixed = {}
+    for pv in sup:
         ids = proto.Ids(pv)
-        h = gen_history(rng, ids, n, disc)
+        if sum(1 for c in cb.play.get_packets(ids.ctx) if c.get_id(ids.ctx) == ids.chat) > 1:
+            plan.append((pv, 0, False, None, 'frame'))
+            fixed[len(plan) - 1] = [('ka', 1), ('chat', '{"text":"hello"}'), ('ka', 2)]
+    for k, (pv, n, disc, thr, chunking) in enumerate(plan):
+        ids = proto.Ids(pv)
+        h = fixed[k] if k in fixed else gen_history(rng, ids, n, disc)
         obs = one_run(chk, pv, h, thr, chunking, rng)
         f107 = ids.ctx.protocol_later_eq(107)
         reqs.append(('session_run', [[1], False, f107, model_steps(h)]))
@@ -173,6 +181,20 @@ def run(chk):
             chk.violation('play', 'play:%d:parse' % pv, {'case': case, 'observed': obs}, 'protocol %d: %s' % (pv, obs['error']))
             continue
         diff = [k for k in exp if obs.get(k) != exp[k]]
+        if diff and any(it[0] == 'chat' for it in h):
+            # a chat frame whose id is shared with another registered class (an open C06 finding) is decoded by the
+            # wrong class: if the history without the chat frames behaves, this is that finding and nothing else
+            from minecraft.networking.packets import clientbound as cb
+            same = [c.__name__ for c in cb.play.get_packets(ids.ctx) if c.get_id(ids.ctx) == ids.chat]
+            if len(same) > 1:
+                h2 = [it for it in h if it[0] != 'chat']
+                obs2 = one_run(chk, pv, h2, thr, chunking, rng)
+                r2 = run_model([('session_run', [[1], False, ids.ctx.protocol_later_eq(107), model_steps(h2)])])[0]
+                exp2 = [[w[0][0], w[0][1]] + ([True] if w[0][0] == 4 else []) for w in r2[4]]
+                if 'error' not in obs2 and obs2.get('answers') == exp2:
+                    chk.violation('play', 'collision:%d:clientbound.play:0x%02X:chat-frame-misdecoded' % (pv, ids.chat), {'case': case, 'classes': same},
+                                  'protocol %d: a chat message frame (id 0x%02X, shared by %s) is decoded by the wrong class and ends the networking thread' % (pv, ids.chat, ' and '.join(same)))
+                    continue
         if diff:
             k = diff[0]
             detail = ''
